@@ -277,6 +277,19 @@ def scope_names(tree):
     return {k: v for k, v in res.items() if "<anon>" not in k}
 
 
+def decorate(rng, marker):
+    """Ways a marker appears in real code: alone, after another comment on the same line, followed
+    by an explanation, with several blanks."""
+    c = rng.random()
+    if c < 0.55:
+        return marker
+    if c < 0.75:
+        return rng.choice(["# noqa: D103", "# type: ignore", "# explanation", "# noqa: E501 # nosec"]) + rng.choice(["  ", " "]) + marker
+    if c < 0.88:
+        return marker + rng.choice(["  # only when run by hand", " # why"])
+    return marker.replace("# ", "#  ").replace(": no ", ":  no  ")
+
+
 def arm_targets(lines):
     """0-based indices of lines where a marker exercises the arm logic of compound statements with
     several arms: the else/finally labels and lines inside the else / handler / finally bodies of
@@ -329,7 +342,7 @@ def gen_case(rng, size=None):
                     else hdr if (hdr and c < 0.8) else code)
             i = rng.choice(pool)
             if "#" not in lines[i]:
-                lines[i] = lines[i] + "  " + rng.choice(MARKERS)
+                lines[i] = lines[i] + "  " + decorate(rng, rng.choice(MARKERS))
         src = "\n".join(lines) + "\n"
         try:
             tree = ast.parse(src)
